@@ -165,5 +165,11 @@ def run(ctx: core.Ctx) -> int:
                      ("ARR-EW", "sums conform")):
         ctx.rule(_rid, _t)
     scenarios.transfer(sc.it, ctx, rules={"LAY-CALL", "LAY-FLAT", "LAY-ZIP", "LAY-SLOT", "LAY-DICT", "ARR-MM", "ARR-EW"}, files={PY})
+    from . import c13 as _c13nv
+    _c13nv.named_arrays(ctx, ("vec", "cov"))
+    # no module-level / class-level mutable state shared between filters: one filter's construction or update must not reach another's (shared with C01)
+    from . import c15 as _c15pp
+    ctx.rule("PY-PURE", "no module-level / class-level mutable state shared between filters (shared with C01)")
+    _c15pp.gen_pure(ctx, {"python": "py/formak/python.py", "common": "py/formak/common.py"}, rule="PY-PURE", floor=40)
     return core.finish(ctx, explanation="pairwise equality of E3 normal forms (Python interpreter vs clang AST of the rendered templates), "
                                         "shared role layouts, compile witnesses", **META)
